@@ -263,8 +263,9 @@ class EquationSolver(object):
             bad = False
             if abs(lastval-prev) > self.ParameterInitialSteadyStateErrorToler:
                 if abs(lastval) < 1e-4:
-                    if not abs(prev) < 1e-4:
-                        bad = True
+                    # Near zero the relative error is meaningless (division by ~0): the absolute difference,
+                    # which already exceeds the tolerance here, decides.
+                    bad = True
                 else:
                     err = abs(lastval - prev) / abs(lastval)
                     if err > self.ParameterInitialSteadyStateErrorToler:
